@@ -797,6 +797,7 @@ def model_dump(case, r):
     return coq_print(PID, COQ_IMPORTS, "Eval vm_compute in model_dump (%s)." % t)[-8000:]
 
 
+SRC_SPECS = ["chankey"]     # translator/specs/chankey.json -> Generated/Src_ChanKey.v (regenerated on every run)
 READY = True
 TECHNIQUE = ("Coq proof (inductive key/counter invariant + extension relation over all operation histories; counting "
              "argument for key reservation) + model/impl correspondence by vm_compute + decidable monitor on the "
